@@ -36,6 +36,10 @@ RULE = ("corpus of defect witnesses; all trees of a small grammar up to size N (
         "collections. Non-trivial = the implementation's output differs from its input; distinct by ast.dump")
 
 CORPUS = [
+    # a definition used twice, one use re-visited by a fusion rule: the implementation's in-place edit shows in the other use
+    # too (correspondence kind "resimplified"; minimised from a thorough-tier disagreement)
+    "(lambda e: Select(Where(e, lambda t: t > 0), lambda t: len(e)))(Select(Select(ds, lambda e: First(ds)), lambda t: Count(Select(t.trk, lambda j: j.met))))",
+    "(lambda t: (lambda e, v52: Select(Where(e, lambda t: t > 0), lambda t: len(e)))(Select(Select(Select(ds, lambda y: (y, t < 2)), lambda e: First(ds)), lambda t: Count(Select(t.trk, lambda j: j.met))), t))(t=First(Select(ds, lambda y: y)).m(First(Select(ds, lambda e: e.pt)), k=First(ds).pt))",
     # F04 keywords / arity
     "(lambda x, y: x - y)(y=1, x=2)", "(lambda x, y: x - y)(1)", "(lambda x, y: x - y)(1, 2, 3)", "(lambda x: x)(1, x=2)",
     "(lambda x, y: x - y)(1, z=2)", "(lambda x, y=3: x - y)(1)", "(lambda *a: a)(1)", "(lambda x, y: x - y)(1, **k)",
@@ -85,6 +89,37 @@ def small_grammar(size: int):
     te = [lambda a, b, c: call(lam(["x", "y"], a), [b, c]), lambda a, b, c: call(lam(["x", "y"], a), [b], [("y", c)]),
           lambda a, b, c: fcall("Select", a, lam("x", b), c)]
     return gen.enum_trees(leaves, {1: un, 2: bi, 3: te}, size)
+
+
+def hygiene_family():
+    """Pending definitions at every depth of the argument stack that mention a free name X, and an un-called lambda further in
+    that binds X and uses the defined parameter: the definition must not be captured by the inner binder, whichever frame of
+    the stack holds it (argument_stack.mentions looks at all frames)."""
+    out = []
+    for wrap in (False, True):
+        for depth in (1, 2, 3):
+            for istar in range(1, depth + 1):
+                for argsrc in ("Count(X)", "First(X).a", "X"):
+                    for op in ("Select", "Where", "SelectMany"):
+                        X = "ds"
+                        src = "e.jets" if wrap else "ds"
+                        fld = "pt" if wrap else "a"
+                        p = "n%d" % istar
+                        if op == "Select":
+                            body = "Select(%s, lambda %s: (%s.%s, %s))" % (src, X, X, fld, p)
+                        elif op == "Where":
+                            body = "Where(%s, lambda %s: %s.%s > %s)" % (src, X, X, fld, p)
+                        else:
+                            inner = "trk" if wrap else "jets"
+                            body = "SelectMany(%s, lambda %s: Select(%s.%s, lambda j: j.pt + %s))" % (src, X, X, inner, p)
+                        q = body
+                        for i in range(depth, 0, -1):
+                            arg = argsrc.replace("X", X) if i == istar else str(i)
+                            q = "(lambda n%d: %s)(%s)" % (i, q, arg)
+                        if wrap:
+                            q = "Select(ds, lambda e: %s)" % q
+                        out.append(q)
+    return out
 
 
 def check_case(ctx, q: ast.expr, model_ln: str, datasets, label: str, semantic: bool = True):
@@ -141,6 +176,9 @@ def run(ctx):
     # 1. corpus
     qs = [sc.parse(s) for s in CORPUS]
     labels = ["corpus"] * len(qs)
+    hf = [sc.parse(x) for x in hygiene_family()]
+    qs += hf
+    labels += ["hygiene"] * len(hf)
     # 2. enumeration (correspondence incl. malformed shapes; these are mostly not evaluable)
     size = ctx.budget(4, 5)
     by = small_grammar(size)
@@ -167,7 +205,7 @@ def run(ctx):
         check_case(ctx, q, m, datasets, lab)
         if m == "OUTOFFUEL":
             ctx.count("model", "OUTOFFUEL")
-    for q in qs[8:11] + qs[len(CORPUS) + n_enum: len(CORPUS) + n_enum + 3]:
+    for q in qs[8:11] + qs[len(CORPUS) + len(hf) + n_enum: len(CORPUS) + len(hf) + n_enum + 3]:
         st, out, _ = sc.impl(q)
         ctx.sample({"query": bridge.dump(q), "simplified": bridge.dump(out) if st == "ok" else st})
 
